@@ -334,6 +334,7 @@ def sweep(ctx, pid, exe, jobs, make_ops, oracle, timeout=None, extra_known=None,
         ctx.hist("dist_engine", tr.engine)
         ctx.hist("dist_stages", "+".join(s["kind"] for s in tr.plan) or "none")
         ctx.count("api_calls_compared", len(tr.results))
+        tr.diff = d
         out.append((job, ops, tr, bad, info))
         if d or bad:
             kn = classify_known(tr.plan, job["cfg"]) + (extra_known(job, tr) if extra_known else [])
